@@ -23,7 +23,10 @@ func (handler *PriorityEventHandler[E]) Emit(event E) {
 // in ascending order.
 func (handler *PriorityEventHandler[E]) Subscribe(listener Listener[E], priority int) {
 	pl := priorityListener[E]{listener: listener, priority: priority}
-	handler.listeners = append(handler.listeners, pl)
+	// always append into a fresh array: an emission in progress (a listener may subscribe from inside
+	// it) keeps ranging over the array it started with, which the sort below must not permute
+	n := len(handler.listeners)
+	handler.listeners = append(handler.listeners[:n:n], pl)
 	sort.Sort(handler.listeners)
 }
 
